@@ -1,4 +1,4 @@
-from registry import H, kani_unit, PROPS, UNITS
+from registry import H, kani_unit, verus_unit, PROPS, UNITS
 
 F64 = "math/src/field/f64/mod.rs"
 kani_unit("f64", "winter-math", F64, "kani/math_f64.rs", "field::f64", [
@@ -46,3 +46,5 @@ PROPS["C07"] = dict(
              "mathematical lifting from the Montgomery witness identity to residues where no Verus lemma covers it"],
     not_decided=[],
 )
+
+verus_unit("f64v", "f64", ["C07"], ["f64::BaseElement::new", "f64::Mul::mul", "traits::FieldElement::square"])
